@@ -23,6 +23,45 @@ CLAIMS = {
          "pandas/json library semantics are not decided.",
          "Trusted: CPython ast; np.array(list, dtype=float) maps None to NaN; json emits what to_dict's plain types contain.",
          "DESIGN.md 4/C20"),
+ "C02": ("single-sink call-graph check, typestate data-flow (guard->increment->call) over the CFG of every evaluating function, dominator/control-dependence "
+         "proof of the x0 entry obligation at each solve_main call site, role provenance of soln.nf/nx on the value-flow graph, counting data-flow for NX, "
+         "origin slice of every sampling-loop bound",
+         "Static decision on every path and every call site of the structure that makes the budget and the counters exact: objfun is called in one function reached "
+         "from 3 sites; each evaluation is reached only in typestate 'NF<MAXFUN tested, NF incremented once'; the unguarded x0 evaluation is covered by an obligation "
+         "proved at each call site of solve_main; soln.nf/nx slice back only to the counters and no stale local is returned after hand-over to the Controller; NX is "
+         "incremented exactly once per point before the first sample and the evaluated x is loop-invariant; every sample count originates from max(nsamples(..),1). "
+         "The statement is itself structural, so this is essentially the whole property.",
+         "Trusted: CPython ast; CFG/dominators (networkx); counters identified as whatever flows into the 'Function eval %i at point %i' log ports.",
+         "DESIGN.md 4/C02"),
+ "C03": ("role provenance (backward slice with tuple-position matching and cross-role seeds) on the interprocedural value-flow graph; per-call-site record "
+         "coherence via reaching definitions and CFG path queries; AST agreement of result tuples; shape analysis of objective stores",
+         "Static decision of: xmin_eval_num / jacmin_eval_nums / Model.eval_num[_save] are fed only by the point counter and sample-count fields only by sample "
+         "counters; at every change_point/add_new_point/save_point call the four record components derive from the same evaluation, with no other evaluation between "
+         "it and the read of the point counter; slot fields, final selection and hard-restart merge move all components together; each stored objective is "
+         "sumsq(residual)[+h] with h exactly when it may be set; every exit selects through get_final_results. Not decided: 'to rounding', 'resid is the mean'.",
+         "Trusted: CPython ast, reaching definitions, field-based (flow-insensitive) treatment of object fields.",
+         "DESIGN.md 4/C03"),
+ "C04": ("typestate data-flow 'pending evaluation result' over the CFG after each evaluate_objective call site; dominator query in soft_restart; finite order-domain "
+         "decision tables of selection guards; def-use check that every return takes its record from get_final_results",
+         "Static decision, on every CFG path after each of the 11 evaluation call sites, that the evaluated point is offered to change_point/add_new_point/save_point "
+         "(exempt: nothing evaluated, value is NaN); that the incumbent save dominates every point-moving call of soft_restart; that every selection guard takes the "
+         "strictly smaller value (complete table over orderings); that all exits return the final selection. Values themselves are not decided.",
+         "Trusted: CPython ast; CFG; the three record consumers are Model.change_point/add_new_point/save_point.",
+         "DESIGN.md 4/C04"),
+ "C08": ("finite order-domain decision tables over {None, NaN, lo<hi} for every selection guard (AST interpretation of the guard), NaN-awareness lint for arg-min "
+         "over stored objectives, enclosing-try scan along call-graph reachability to objfun",
+         "Static decision that selection is NaN-total (a NaN candidate never replaces a finite holder, a finite candidate replaces a NaN holder, empty slot filled, "
+         "guard never raises), that arg-min over stored objective values ignores NaN, and that no try statement can swallow an exception raised by the user's objective. "
+         "Termination / finiteness of the returned x under faults are not decided.",
+         "Trusted: IEEE comparison semantics of NaN as implemented in the table evaluator; numpy.nanargmin ignores NaN.",
+         "DESIGN.md 4/C08"),
+ "C10": ("control-dependence of every ExitInformation construction on the fact its message states; truth-table entailment over normalised atoms for conditionally "
+         "overwritten messages; counting data-flow for nruns over all breaks/continues/returns of solve_main",
+         "Static decision, at every construction site of an exit message that states a fact, that the fact is a control dependence (or path-entailed) of the "
+         "construction, and that the run counter is incremented exactly once per run end on every path and threaded through solve. 'rho equals rhoend' (needs rho >= rhoend) "
+         "is not decided.",
+         "Trusted: CPython ast; CFG; normalisation of comparisons over a total order (counters are integers).",
+         "DESIGN.md 4/C10"),
 }
 
 NOT_APPLICABLE = {
